@@ -30,6 +30,9 @@ def scale(a, k):
 
 
 def freeze(f):
+    for k in f:
+        if k != 1:
+            _ATOMS[str(k)] = k
     return tuple(sorted((str(k), v) for k, v in f.items()))
 
 
@@ -100,9 +103,62 @@ def linform(b, op, at, depth=0):
         return add(linform(b, c.args[0], c.bb, depth + 1), linform(b, c.args[1], c.bb, depth + 1))
     if c.matches(*PASS) and c.args:
         return linform(b, c.args[0], c.bb, depth + 1)
+    if c.path.endswith("str::<impl str>::len") and c.args:
+        cs = const_str_of(b, c.args[0], c.bb)
+        if cs is not None:
+            n = len(cs.encode("utf-8"))
+            return {1: n} if n else {}
     # opaque call: keyed by the callee and what it is applied to
     args = tuple(freeze(_argform(b, a, c.bb, depth)) for a in c.args)
     return {("call", c.path, args): 1}
+
+
+def const_str_of(b, op, at, depth=0):
+    """The string constant an operand (a `&str`, possibly through reborrows and copies) denotes, or None."""
+    if not isinstance(op, dict) or depth > 8:
+        return None
+    if op.get("k") == "const":
+        v = const_val(op)
+        return v if isinstance(v, str) and "str" in op.get("ty", "&str") else None
+    pl = op["place"]
+    if [e for e in pl["p"] if e != "*"]:
+        return None
+    ds = [d for d in b.defs().get(pl["l"], ()) if d["kind"] in ("assign", "call") and b.def_reaches(d, at)]
+    if len(ds) != 1 or ds[0]["kind"] != "assign" or ds[0]["lhs"]["p"]:
+        return None
+    rv = ds[0]["rv"]
+    if rv["k"] == "use":
+        return const_str_of(b, rv["op"], ds[0]["bb"], depth + 1)
+    if rv["k"] in ("ref", "copyderef") and not [e for e in rv["place"]["p"] if e != "*"]:
+        return const_str_of(b, {"k": "copy", "place": {"l": rv["place"]["l"], "p": []}}, ds[0]["bb"], depth + 1)
+    return None
+
+
+def fold_divrem(f):
+    """L*(x div L) + (x rem L) = x, for a constant L: rewrite such pairs in a form."""
+    out = dict(f)
+    for k, v in list(f.items()):
+        if isinstance(k, tuple) and k[0] == "rem" and k in out:
+            x, L = k[1], k[2]
+            dk = ("div", x, L)
+            Ld = dict(L)
+            if set(Ld) == {"1"} and dk in out and out[dk] == Ld["1"] * out[k]:
+                m = out[k]
+                del out[k]
+                del out[dk]
+                out = add(out, _thaw(x), m)
+    return out
+
+
+def _thaw(fr):
+    return {(1 if k == "1" else _unstr(k)): v for k, v in fr}
+
+
+_ATOMS = {}
+
+
+def _unstr(s):
+    return _ATOMS.get(s, ("frozen", s))
 
 
 def _argform(b, a, at, depth):
